@@ -401,7 +401,7 @@ class Executor:
 
     def lookup_named_const(self, s, st):
         table = getattr(self, "named_consts", None)
-        if not table or not re.match(r"^[A-Za-z_][\w:]*$", s):
+        if not table or not re.match(r"^[A-Za-z_<][\w:<>{}#, ]*$", s):
             return None
         last = s.split("::")[-1]
         if not re.match(r"^[A-Z_][A-Z0-9_]*$", last):
